@@ -409,6 +409,85 @@ def guarded_constants(F, b, ta):
     return out
 
 
+def steered_switches(F, b, ta):
+    """R1d: every switch steered by the real part of a dual value whose arms define dual values differently
+    (piecewise definitions).  returns list of dicts {where, desc, arms}"""
+    out = []
+    defs = ta.defs
+    dom = None
+    for bi, blk in enumerate(b.blocks):
+        t = blk["term"]
+        if t["k"] != "switch" or t["op"]["k"] not in ("copy", "move"):
+            continue
+        if b.pty(t["op"]["place"])["k"] != "bool":
+            continue
+        steered = False
+        desc = []
+        work = [t["op"]["place"]["l"]]
+        seen = set()
+        while work:
+            l = work.pop()
+            if l in seen:
+                continue
+            seen.add(l)
+            for d in defs.of(l):
+                if d[0] == "stmt":
+                    rv = d[4]
+                    if rv["k"] == "binop" and rv.get("cmp"):
+                        if ta.op_tainted(rv["a"]) or ta.op_tainted(rv["b"]):
+                            steered = True
+                            c = rv["a"].get("f") or rv["b"].get("f")
+                            desc.append("%s:%s" % (rv["op"], c if c is not None else "var"))
+                    elif rv["k"] == "unop" and rv["a"].get("k") in ("copy", "move"):
+                        work.append(rv["a"]["place"]["l"])
+                    elif rv["k"] == "use" and rv["op"].get("k") in ("copy", "move"):
+                        work.append(rv["op"]["place"]["l"])
+                    elif rv["k"] == "binop" and rv["op"] in ("BitAnd", "BitOr"):
+                        for o in (rv["a"], rv["b"]):
+                            if o.get("k") in ("copy", "move"):
+                                work.append(o["place"]["l"])
+                else:
+                    tt = d[2]
+                    p, tr, name = callee(tt)
+                    if tr in ("std::cmp::PartialOrd", "std::cmp::PartialEq") or name in ("is_nan", "is_finite", "is_infinite", "is_sign_negative", "is_sign_positive", "is_zero"):
+                        tainted = any(ta.op_tainted(a) for a in tt["args"])
+                        for a in tt["args"]:
+                            if a.get("k") in ("copy", "move"):
+                                for d2 in defs.of(a["place"]["l"]):
+                                    if d2[0] == "stmt" and d2[4]["k"] == "ref" and ta.place_tainted(d2[4]["place"]):
+                                        tainted = True
+                        if tainted:
+                            steered = True
+                            desc.append(name)
+        if not steered:
+            continue
+        if dom is None:
+            dom = dominators(b)
+        back = {(u, v) for u, ss in enumerate(b.succs()) for v in ss if u in dom and v in dom[u]}
+        succs = b.succ(bi)
+        arms = []
+        for s_ in succs:
+            others = set()
+            for o in succs:
+                if o != s_:
+                    others |= reachable(b, back, start=o)
+            reg = reachable(b, back, start=s_) - others
+            duals = []
+            for rb in sorted(reg):
+                for st in b.blocks[rb]["stmts"]:
+                    if b.pty(st["place"])["dual"] and st["rv"]["k"] != "ref":
+                        duals.append("assign")
+                tt = b.blocks[rb]["term"]
+                if tt["k"] == "call":
+                    nm = callee(tt)[2] or ""
+                    if b.pty(tt["dest"])["dual"] or nm.endswith("_assign"):
+                        duals.append(nm)
+            arms.append(duals)
+        if any(arms):
+            out.append({"where": t["span"], "desc": "/".join(sorted(set(desc))), "arms": [a[:5] for a in arms]})
+    return out
+
+
 def run(F, sel=None):
     with open(TABLE, "rb") as fh:
         tab = tomllib.load(fh)
@@ -536,6 +615,41 @@ def run(F, sel=None):
                         "with respect to that argument" % (b.path, ret["s"][:80]))
         else:
             rc.inst(iid, b.file_line(), "ok", ret=ret["s"][:60])
+    # ---- R1d: census of piecewise (real-part-steered) definitions of dual values
+    rd = RuleResult("R1d", "DUAL-FLOW: every real-part-steered piecewise definition of a dual value is reviewed")
+    reviewed = {}
+    for e in tab.get("switch", []):
+        reviewed.setdefault(e["fn"], []).append(e)
+    n_sw = 0
+    guard_fns = {i["id"][len("guard|"):] for i in rb.instances}
+    for b in gd:
+        fk = fn_key(b)
+        if sel and not sel(fk):
+            continue
+        for sw in steered_switches(F, b, results[b.path]):
+            n_sw += 1
+            hit = None
+            for fn, es in reviewed.items():
+                if fk.endswith(fn):
+                    for e in es:
+                        if e["desc"] == sw["desc"]:
+                            hit = e
+            iid = "switch|%s|%s" % (fk, sw["desc"])
+            if hit and hit.get("arm_must_call") and not any(hit["arm_must_call"] in arm for arm in sw["arms"]):
+                rd.inst(iid, sw["where"], "violation", arms=sw["arms"])
+                rd.fail("%s|switch|%s|arm-lost-%s" % (fk, sw["desc"], hit["arm_must_call"]), sw["where"],
+                        "%s: the replacement arm of the reviewed piecewise definition (%s) no longer contains `%s` (%s)" % (fk, sw["desc"], hit["arm_must_call"], hit["reason"][:120]))
+            elif hit:
+                rd.inst(iid, sw["where"], "exempt", reason=hit["reason"])
+            else:
+                rd.inst(iid, sw["where"], "violation", arms=sw["arms"])
+                rd.fail("%s|switch|%s" % (fk, sw["desc"]), sw["where"],
+                        "%s: a dual-valued expression is defined piecewise, the piece being selected by the real part of a dual value (%s): unless "
+                        "both pieces agree to the order of the derivatives taken (first to third for state properties, second/third density derivative "
+                        "for virial coefficients at zero density) the derivatives at the switching point are those of the wrong piece — not reviewed"
+                        % (fk, sw["desc"]))
+    rd.floor("piecewise definitions examined", n_sw, tab["floors"].get("switches", 1))
+    rd.exhaustive = True
     for rule in ex:
         for fn in ex[rule]:
             if (rule, fn) not in used:
@@ -544,4 +658,4 @@ def run(F, sel=None):
         r.exhaustive = True
     ra.blind.append("a wrong formula that keeps all dual parts is invisible (numerical)")
     ra.blind.append("implicit (control) flows from real parts are the accepted idiom and not tracked")
-    return [ra, rb, rc]
+    return [ra, rb, rc, rd]
